@@ -24,7 +24,12 @@ func ramerDouglasPeucker(dst []float64, seq Sequence, threshold float64) []float
 					maxDist = d
 				}
 			}
-			if maxDist <= threshold {
+			// Stop narrowing once no point between start and newEnd is
+			// further from the line than the threshold. If no point is off
+			// the line at all (maxDistIdx wasn't set), then also stop: a
+			// negative or NaN threshold would otherwise never be satisfied
+			// and the loop would never end.
+			if maxDistIdx == 0 || maxDist <= threshold {
 				break
 			}
 			newEnd = maxDistIdx
